@@ -54,6 +54,17 @@ def cladeOK (t : T) (S : List String) (u : T) : Bool :=
      | none => false)
   | _ => false
 
+/-- the same without the reference to "the" separating branch: when some node has exactly two
+    neighbours a split is carried by several branches and the code cuts one of them; what remains
+    required is two root clades, one exactly the outgroup, on two equal root branches (the fused
+    length and support of the split are still checked by `preserved`) -/
+def cladeWeak (t : T) (S : List String) (u : T) : Bool :=
+  let s := outTips t S
+  match u.kids with
+  | [(e1, c1), (e2, c2)] =>
+    (sortS c1.leaves == sortS s || sortS c2.leaves == sortS s) && e2.len == e1.len && e2.sup == e1.sup
+  | _ => false
+
 /-- non-strict rooting on a non-monophyletic outgroup: it ends up inside one root clade -/
 def insideOK (t : T) (S : List String) (u : T) : Bool :=
   let s := outTips t S
